@@ -204,7 +204,7 @@ def tlc(module, cfg, env=None, workers=16, timeout=1800, simulate=None, depth=No
         m = re.search(r"Invariant (\S+) is violated", out)
         if m:
             res.error = "invariant:" + m.group(1)
-        elif "Temporal properties were violated" in out:
+        elif "Temporal properties were violated" in out or re.search(r"Temporal property \S+ was violated", out):
             res.error = "property"
         elif re.search(r"Action property \S+ is violated", out):
             res.error = "actionproperty:" + re.search(r"Action property (\S+) is violated", out).group(1)
